@@ -17,7 +17,7 @@ import (
 // Compared with the model: control result + final directory.
 type pdfCase struct {
 	fault  int
-	key    string // err: WriteContext shape (deferred finish keyed on err); none: writeReader / CopyFile shape
+	key    string // flag: WriteContext (deferred finish, completion flag); err: the same keyed on err only; none: writeReader / CopyFile
 	input  int    // 0 or the source file (CopyFile shape)
 	path   int
 	init   []fsEntry
@@ -116,17 +116,26 @@ func pdfSkeleton(e *env, c pdfCase) (err error) {
 		closeInput := func() error { return e.closeFile(from) }
 		return pdfcpu.VerifFinishStagedFile(path, to, copyErr, closeInput, e.replace, e.remove)
 	default:
-		// WriteContext: file := createStagedFile(fileName); defer func() { err = finishWriteFile(file, fileName, err) }()
+		// WriteContext (write.go): completed := false; file := createStagedFile(fileName);
+		//   defer func() { writeErr := err; if !completed && writeErr == nil { writeErr = errWriteAborted };
+		//                  err = finishWriteFile(file, fileName, writeErr) }();  body;  completed = true
+		// key "err" is the same skeleton without the completion flag (the abstract err-keyed skeleton).
+		completed := false
 		to, cerr := e.createTemp(path)
 		if cerr != nil {
 			return cerr
 		}
 		defer func() {
-			err = pdfcpu.VerifFinishStagedFile(path, to, err, nil, e.replace, e.remove)
+			writeErr := err
+			if c.key == "flag" && !completed && writeErr == nil {
+				writeErr = errors.New("write aborted")
+			}
+			err = pdfcpu.VerifFinishStagedFile(path, to, writeErr, nil, e.replace, e.remove)
 		}()
 		if _, err = io.Copy(to, &chunkReader{c.chunks, c.fin}); err != nil {
 			return err
 		}
+		completed = true
 		return nil
 	}
 }
@@ -156,7 +165,7 @@ func runPdfCase(r *vh.Run, n int, c pdfCase) int {
 	}
 	r.Case("pdf", c.args(), ctl+"|"+after)
 	oneCause := c.fault < 0 || c.fin == "ok"
-	if oneCause && c.fin != "panic" {
+	if oneCause && (c.fin != "panic" || c.key == "flag") {
 		if ctl != "ok" && after != before {
 			r.OracleFail("pdf-staged-not-restored", map[string]any{"part": "pdf-staged", "case": c.args(), "trace": e.trace},
 				fmt.Sprintf("result=%s before=%s after=%s", ctl, before, after))
@@ -191,8 +200,8 @@ func partPdfStaged(r *vh.Run) {
 	n := 0
 	for _, rl := range rels {
 		for _, chunks := range bodies {
-			for _, key := range []string{"err", "none"} {
-				if key == "err" && rl.input != 0 {
+			for _, key := range []string{"flag", "err", "none"} {
+				if key != "none" && rl.input != 0 {
 					continue
 				}
 				for _, fin := range []string{"ok", "err", "panic"} {
